@@ -3,8 +3,22 @@
   Model: HapModel/Frame.lean (`encrypt`, `Tx.write`, `Tx.step` = write-then-install).
 -/
 import Proofs.Frame
+import HapModel.Gen.Crypto
 namespace Hap.Frame
 open Hap
+
+/-- The send-side constants found in pyhap/hap_crypto.py *now* (regenerated on every run):
+    block size, length packing, the accessory-to-controller key label and how `reset` derives
+    the out-cipher. -/
+theorem C05_consts :
+    Gen.Crypto.maxBlockLength = MAXBLK ∧
+    Gen.Crypto.encryptChunk = "min(total - offset, self.MAX_BLOCK_LENGTH)" ∧
+    Gen.Crypto.packLength = "Struct('H').pack" ∧
+    Gen.Crypto.packNonce = "partial(Struct('<LQ').pack, 0)" ∧
+    Gen.Crypto.cipherSalt = "Control-Salt" ∧
+    Gen.Crypto.outCipherInfo = "Control-Read-Encryption-Key" ∧
+    Gen.Crypto.resetOutCipher =
+      "ChaCha20Poly1305(hap_hkdf(shared_key, self.CIPHER_SALT, self.OUT_CIPHER_INFO))" := by decide
 
 /-- `HAPCrypto.encrypt` cuts every message into blocks of 1..1024 bytes, all but the last of
     exactly 1024, whose concatenation is the message; the wire bytes are those blocks framed
